@@ -61,10 +61,16 @@ fn make_node(window: u64, cond: Cond) -> StreamJoinNode {
 }
 
 impl Sys {
-    pub fn new(manager: bool, window: u64, cond: Cond, keys: &[Option<&'static str>], tss: &[u64], wms: &[i64]) -> Self {
-        let subj = if manager {
+    /// manager: 0 = the bare node, 1 = through StreamJoinManager, 2 = through a manager on which the join id was
+    /// registered, unregistered and registered again before the run
+    pub fn new(manager: u8, window: u64, cond: Cond, keys: &[Option<&'static str>], tss: &[u64], wms: &[i64]) -> Self {
+        let subj = if manager > 0 {
             let mut m = StreamJoinManager::new();
             let sink: Arc<Mutex<Vec<JoinedEvent>>> = Arc::new(Mutex::new(Vec::new()));
+            if manager == 2 {
+                m.register_join("j".to_string(), make_node(window, cond), Box::new(|_| {}));
+                m.unregister_join("j");
+            }
             let s2 = sink.clone();
             m.register_join("j".to_string(), make_node(window, cond), Box::new(move |j| s2.lock().unwrap().push(j)));
             Subject::Manager(m, sink)
@@ -200,7 +206,7 @@ impl System for Sys {
     }
 }
 
-type Plan = (&'static str, Vec<Option<&'static str>>, Vec<u64>, Vec<i64>, usize, u32, bool);
+type Plan = (&'static str, Vec<Option<&'static str>>, Vec<u64>, Vec<i64>, usize, u32, u8);
 
 pub fn run(opts: &Opts) -> Vec<Report> {
     let k3 = vec![Some("a"), Some("b"), None];
@@ -208,16 +214,18 @@ pub fn run(opts: &Opts) -> Vec<Report> {
     let k1 = vec![Some("a")];
     let plan: Vec<Plan> = match opts.tier {
         Tier::Quick => vec![
-            ("join_3keys_len4", k3.clone(), vec![0, 1, 3], vec![1, 10], 4, 2, false),
-            ("join_2keys_len6", k2.clone(), vec![0, 2], vec![10], 6, 1, false),
-            ("join_1key_len8", k1.clone(), vec![0, 2], vec![10], 8, 1, false),
-            ("join_manager_len4", k2.clone(), vec![0, 1, 3], vec![10], 4, 1, true),
+            ("join_3keys_len4", k3.clone(), vec![0, 1, 3], vec![1, 10], 4, 2, 0),
+            ("join_2keys_len6", k2.clone(), vec![0, 2], vec![10], 6, 1, 0),
+            ("join_1key_len8", k1.clone(), vec![0, 2], vec![10], 8, 1, 0),
+            ("join_manager_len4", k2.clone(), vec![0, 1, 3], vec![10], 4, 1, 1),
+            ("join_manager_reregistered_len4", k2.clone(), vec![0, 1, 3], vec![10], 4, 1, 2),
         ],
         Tier::Thorough => vec![
-            ("join_3keys_len5", k3.clone(), vec![0, 1, 3], vec![1, 10], 5, 2, false),
-            ("join_2keys_len7", k2.clone(), vec![0, 2], vec![1, 10], 7, 2, false),
-            ("join_1key_len9", k1.clone(), vec![0, 2], vec![10], 9, 2, false),
-            ("join_manager_len5", k2.clone(), vec![0, 1, 3], vec![10], 5, 1, true),
+            ("join_3keys_len5", k3.clone(), vec![0, 1, 3], vec![1, 10], 5, 2, 0),
+            ("join_2keys_len7", k2.clone(), vec![0, 2], vec![1, 10], 7, 2, 0),
+            ("join_1key_len9", k1.clone(), vec![0, 2], vec![10], 9, 2, 0),
+            ("join_manager_len5", k2.clone(), vec![0, 1, 3], vec![10], 5, 1, 1),
+            ("join_manager_reregistered_len5", k2.clone(), vec![0, 1, 3], vec![10], 5, 1, 2),
         ],
     };
     let mut out = vec![];
@@ -251,7 +259,7 @@ pub fn replay(case: &serde_json::Value) -> crate::props::ReplayResult {
     let ctx = &case["ctx"];
     let window = ctx["window_s"].as_u64().unwrap_or(1);
     let cond = if ctx["cond"].as_str() == Some("True") { Cond::True } else { Cond::LeftNotAfterRight };
-    let manager = ctx["manager"].as_bool().unwrap_or(false);
+    let manager = ctx["manager"].as_u64().unwrap_or(0) as u8;
     let keys: Vec<Option<&'static str>> = ctx["keys"]
         .as_array()
         .map(|a| a.iter().map(|k| match k.as_str() { Some("a") => Some("a"), Some("b") => Some("b"), _ => None }).collect())
